@@ -144,6 +144,9 @@ class Walker(ast.NodeVisitor):
                 last in ("rename", "replace") and isinstance(node.func, ast.Attribute)
                 and "path" in dotted(node.func.value).lower() and not node.keywords):
             fo("move", "-", ",".join(dotted(a) for a in node.args))
+        elif last in ("exists", "is_file", "is_dir", "listdir", "iterdir", "scandir", "stat", "lexists", "isfile") and (
+                isinstance(node.func, ast.Attribute)):
+            fo("probe", "-", dotted(node.func.value))
         elif last in ("mkdir", "makedirs"):
             fo("mkdir", "-", dotted(node.func.value) if isinstance(node.func, ast.Attribute) else "?")
         self.generic_visit(node)
